@@ -292,6 +292,35 @@ def run(ctx, idx):
         else:
             ctx.hold("C12.b", con, K.rel(pr), head.line, "pre-pass cleans every declared argument of every command; %d start site(s) lie after its exit" % len(starts))
     ctx.floor("C12.b", "start sites in Program.run", len(starts), 1)
+    # commands are started by Program.run alone (after its pre-pass) or pulled through `.result` from inside a running command:
+    # no other code walks the command table calling run() / reading .result - the command-line tool included
+    n_other = 0
+    for mod_, f_, n_ in K.scoped_nodes(idx):
+        if f_ is None or f_ is pr or (f_.cls is not None and (f_.cls is A.command or A.is_command_subclass(f_.cls) or idx.is_subclass(f_.cls, "mpilot.params.Parameter"))):
+            continue
+        top_ = f_
+        while getattr(top_, "parent", None) is not None:
+            top_ = top_.parent
+        if top_ is pr:
+            continue
+        recv = None
+        if isinstance(n_, ast.Call) and isinstance(n_.func, ast.Attribute) and n_.func.attr == "run" and not n_.args:
+            recv = n_.func.value
+        elif isinstance(n_, ast.Attribute) and n_.attr == "result" and isinstance(n_.ctx, ast.Load):
+            recv = n_.value
+        if recv is None or not isinstance(recv, (ast.Name, ast.Subscript, ast.Attribute)):
+            continue
+        # where does the receiver come from?  a loop / comprehension variable over `<x>.commands...`, or an item of it
+        src_ = K.src(recv)
+        origin = src_
+        if isinstance(recv, ast.Name):
+            for lp_ in ast.walk(f_.node):
+                if isinstance(lp_, (ast.For, ast.comprehension)) and any(isinstance(t_, ast.Name) and t_.id == recv.id for t_ in ast.walk(lp_.target)):
+                    origin = K.src(lp_.iter)
+        if ".commands" in origin:
+            n_other += 1
+            ctx.violate("C12.b", "%s::starts-commands-itself" % K.where(mod_, f_), mod_.rel, n_.lineno, "`%s` starts commands of the table one by one (receiver from `%s`) instead of calling Program.run: the validation pre-pass never happens, so a faulty command listed after a writer is rejected only after the writer has run and written its output" % (K.src(n_)[:50], origin[:50]))
+    ctx.count("command_starts_outside_Program_run", n_other)
     # cleaners touch .result / run() only under a finished guard
     pbase = idx.cls("mpilot.params", "Parameter")
     n_clean = 0
